@@ -354,42 +354,64 @@ def run_case(case, ctx):
                     lon = np.where(lon < 0, lon + 360.0, lon)
                 raw[fi] = Polygon(list(zip(lon, nodes[f, 1]))).buffer(0)
                 planar[fi] = raw[fi].buffer(tolf)
-            owner = []
+            # candidate faces of every row: a whole non-AM face (exact match), or the AM faces of which every non-cut
+            # vertex of the piece is a corner
+            cand_rows = []
             for r, row in enumerate(rows):
                 q = Polygon(np.asarray(row[0], float)).buffer(0)
                 if q.is_empty:
                     fails.append(Failure("polygons_are_faces", site, "degenerate-polygon", f"step {si}: polygon {r} is degenerate: {np.asarray(row[0]).tolist()}"))
                     return False
-                c = q.representative_point()
-                hit = None
-                # exact matches first (non-AM faces), then containment with the face's tolerance
                 got_clean = _clean(row[0], tol)
+                exact = [fi for fi in ids if fi not in am and _cyclic_eq(got_clean, [tuple(xy[j]) for j in faces[fi]], tol)]
+                if exact:
+                    cand_rows.append(exact[:1])
+                    continue
+                pv = [(float(x), float(y)) for x, y in np.asarray(row[0], float) if abs(abs(float(x)) - 180.0) > 1e-3]
+                cands = []
                 for fi in ids:
-                    if fi not in am and _cyclic_eq(got_clean, [tuple(xy[j]) for j in faces[fi]], tol):
-                        hit = fi
-                        break
-                if hit is None:
-                    # a piece of a face across the antimeridian: the face it overlaps most (faces are disjoint);
-                    # buffered containment of its representative point is the fall-back for slivers
-                    from shapely.affinity import translate
-
-                    best, best_a = None, 0.0
-                    for fi in ids:
-                        if fi not in am:
-                            continue
-                        a = max(q.intersection(raw[fi]).area, translate(q, xoff=360.0).intersection(raw[fi]).area)
-                        if a > best_a:
-                            best, best_a = fi, a
-                    hit = best
-                    if hit is None:
-                        for fi in ids:
-                            if fi in am and any(planar[fi].contains(pt) for pt in (c, Point(c.x + 360.0, c.y))):
-                                hit = fi
-                                break
-                if hit is None:
-                    fails.append(Failure("polygons_are_faces", site, "polygon-in-no-face", f"step {si}: polygon {r} {np.asarray(row[0]).tolist()} lies in no face"))
+                    if fi not in am:
+                        continue
+                    corners = [tuple(xy[j]) for j in faces[fi]]
+                    if all(any(max(abs(p[0] - c_[0]), abs(p[1] - c_[1])) <= 2e-4 for c_ in corners) for p in pv):
+                        cands.append(fi)
+                if not cands:
+                    fails.append(Failure("polygons_are_faces", site, "polygon-in-no-face", f"step {si}: polygon {r} {np.asarray(row[0]).tolist()} is no face and no piece of a face across the antimeridian"))
                     return False
-                owner.append(hit)
+                cand_rows.append(cands)
+
+            def covers(assign):
+                # every corner of every face appears in one of the pieces assigned to it
+                for fi in ids:
+                    mine = [np.asarray(rows[r][0], float) for r in range(len(rows)) if assign[r] == fi]
+                    if not mine:
+                        return False
+                    for j in faces[fi]:
+                        c_ = tuple(xy[j])
+                        if not any(np.any(np.maximum(np.abs(m[:, 0] - c_[0]), np.abs(m[:, 1] - c_[1])) <= 2e-4) for m in mine):
+                            return False
+                return True
+
+            owner = None
+            budget = [4000]
+
+            def search(r, last, acc):
+                nonlocal owner
+                if owner is not None or budget[0] <= 0:
+                    return
+                if r == len(rows):
+                    budget[0] -= 1
+                    if covers(acc):
+                        owner = list(acc)
+                    return
+                for fi in cand_rows[r]:
+                    if fi >= last:
+                        search(r + 1, fi, acc + [fi])
+
+            search(0, -1, [])
+            if owner is None:
+                fails.append(Failure("polygons_are_faces", site, "row-order", f"step {si}: the {len(rows)} polygons cannot be grouped, in order, into the faces {list(ids)} such that every face's corners appear in its own pieces (candidates per polygon: {cand_rows})"))
+                return False
             if owner != sorted(owner) or sorted(set(owner)) != list(ids):
                 fails.append(Failure("polygons_are_faces", site, "row-order", f"step {si}: polygons belong to faces {owner}; expected every face of {list(ids)} once (or, across the antimeridian, in consecutive pieces), in order"))
                 return False
